@@ -118,9 +118,17 @@ pub fn c18_shared_two_timers() {
 /// flushed (or not) and dropped: exactly one observation reaches the shared histogram when the
 /// timer recorded, none when it was discarded
 fn local_timer_case(how: u8, flush_after: bool) {
+    local_timer_case_buffered(how, flush_after, false)
+}
+/// `buffered`: the local histogram already holds one unflushed observation when the timer starts
+/// (the timer must contribute exactly its own observation, not the buffered one a second time)
+fn local_timer_case_buffered(how: u8, flush_after: bool, buffered: bool) {
     draw_clock(2);
     let h = hist1();
     let l = h.local();
+    if buffered {
+        l.observe(0.5);
+    }
     let t = l.start_timer();
     let (rec, v) = end_local(t, how);
     assert!(v >= 0.0, "C18 returned duration is non-negative");
@@ -128,7 +136,7 @@ fn local_timer_case(how: u8, flush_after: bool) {
         l.flush();
     }
     drop(l);
-    assert!(h.get_sample_count() == rec as u64, "C18 local timer: exactly one observation when recorded, none when discarded");
+    assert!(h.get_sample_count() == rec as u64 + buffered as u64, "C18 local timer: exactly one observation when recorded, none when discarded");
     assert!(h.get_sample_sum() >= 0.0, "C18 recorded durations are non-negative");
     std::mem::forget(h);
 }
@@ -137,6 +145,13 @@ fn local_timer_case(how: u8, flush_after: bool) {
 pub fn c18_local_timer_recorded() {
     local_timer_case(0, false);
     local_timer_case(1, true);
+}
+/// Local timer started while the local histogram holds an unflushed observation: recorded and
+/// discarded endings.
+#[cfg_attr(kani, kani::proof, kani::unwind(5), kani::stub(std::time::Instant::now, instant_now_stub))]
+pub fn c18_local_timer_with_buffered_observation() {
+    local_timer_case_buffered(1, false, true);
+    local_timer_case_buffered(2, true, true);
 }
 /// Local timer: stop_and_discard / dropped (clock symbolic).
 #[cfg_attr(kani, kani::proof, kani::unwind(5), kani::stub(std::time::Instant::now, instant_now_stub))]
@@ -170,6 +185,7 @@ pub fn dispatch(name: &str) -> Option<fn()> {
         "c18_shared_one_timer" => c18_shared_one_timer,
         "c18_shared_two_timers" => c18_shared_two_timers,
         "c18_local_timer_recorded" => c18_local_timer_recorded,
+        "c18_local_timer_with_buffered_observation" => c18_local_timer_with_buffered_observation,
         "c18_local_timer_discarded_or_dropped" => c18_local_timer_discarded_or_dropped,
         "c18_observe_closure_duration" => c18_observe_closure_duration,
         _ => return None,
